@@ -451,7 +451,11 @@ def c09(run):
                 "format is decodable, Loadable and re-encodes identically. GEN: scaling-law programs (string constant / identifier / program name / source offset / comment "
                 "of n bytes for 26 sizes around 240/241, 2287/2288, 4096, 8192, 67823/67824) x 9 delivery patterns of the dump (all at once, 1 byte per read, cyclic sizes), "
                 "plus every program of the C01/C03/C04 families: real Dump then LoadProg must give the same disassembly, output, blocks, binding, warnings, runtime error "
-                "with position, and a byte-identical second dump. Non-trivial = every case; distinct by case.")
+                "with position, and a byte-identical second dump; every dump is also taken by the Load method of a Prog that holds another program. "
+                "MC (MC_Load): the loader machine BclLoad (Prog.Load as a step machine over a lazily read buffered source) accepts exactly the L1-Loadable files with the L1 decoder's parts "
+                "under every delivery (any read sizes, the last bytes together with the end) and at every cut, and every load ends. TV (Trace_Load): recorded LoadProg runs on real dumps "
+                "and on the recorded corpus (every read with what it delivered incl. zero-byte reads, every section event of the hook in prog.go, returned label, re-dump) are folded through BclLoad; "
+                "a whole dump rejected or loaded to other parts is a violation. Non-trivial = every case; distinct by case.")
     mc_format(run)
     mc_load(run)
     tv_load(run, "C09:loader", 40 if run.quick else 600, "C09")
@@ -467,7 +471,9 @@ def c13(run):
     run.rule = ("MC: for every program record in scope every proper prefix of EncodeProg is not Loadable (the format is prefix-free) and the header predicate classifies "
                 "all magic/version values. GEN: all 2^16 magic values and all 2^16 version byte pairs; every cut 0..len-1 of the real dumps of the C03/C04 program families, "
                 "of the scaling-law programs and of the specification-assembled files: LoadProg must return an error, never panic, never a program. "
-                "Non-trivial = every case; distinct by case.")
+                "MC (MC_Load): the loader machine BclLoad rejects every cut of every file in scope, in the section the cut falls in, under every delivery, and ends. TV (Trace_Load): recorded "
+                "LoadProg runs on cut dumps (every cut of dumps up to 64 bytes, seeded cuts of larger ones; reads, section events, returned label) folded through BclLoad: a proper prefix "
+                "accepted, or a panic, is a violation. Non-trivial = every case; distinct by case.")
     mc_format(run)
     mc_load(run)
     tv_load(run, "C13:loader", 40 if run.quick else 600, "C13", seed_off=3)
